@@ -5,6 +5,7 @@ import ast
 from typing import List
 
 from ..cfg import CFG, ENTRY, EXIT, reaching_defs
+from .. import sym
 from ..core import AnalysisError, FunctionInfo, Project, arg_for, dotted, kwarg, norm, param_names, walk_no_nested
 from ..util import assignments, header_calls, header_walk, lambdas_in, mentions, returns_of, stmt_text
 from . import shared
@@ -152,18 +153,21 @@ def r3(ctx):
               ctx.construct(g, text="write back transform state"),
               "expected model_specs._map(lambda ms: ms.transform_state.update(factor_evaluation_model_spec.transform_state)) before the builds")
     # the result has the shape of the INPUT: only a bare (unstructured) spec is unwrapped
-    env_ = {n_: v_ for n_, v_, _ in assignments(g.node)}
-    ss = env_.get("should_simplify")
-    rets = [r for r in returns_of(g.node)]
-    ok = ss is not None and norm(ss) == "isinstance(spec, ModelSpec)" and any(isinstance(P.parent(r), ast.If) and norm(P.parent(r).test) == "should_simplify" and "_simplify()" in norm(r.value) for r in rets) \
-        and any(norm(r.value) == "model_matrices" for r in rets)
-    # it must be decided on the caller's `spec`: either before the specs are wrapped, or with `spec` never rebound
-    ssst = [st_ for n_, v_, st_ in assignments(g.node) if n_ == "should_simplify"]
-    prep = [st_ for n_, v_, st_ in assignments(g.node) if n_ == "model_specs"]
-    rebinds = [st_ for n_, v_, st_ in assignments(g.node) if n_ == "spec"]
-    ok = ok and bool(ssst) and bool(prep) and (ssst[0].lineno < prep[0].lineno or all(r_.lineno < ssst[0].lineno for r_ in rebinds))
+    # (read off the path summaries: the test is on the caller's `spec` itself — a rebound `spec` would show up as another expression)
+    try:
+        go = sym.thaw(sym.outcomes(g.node))
+    except sym.Unmodelled as e:
+        raise AnalysisError(f"C07.R3: get_model_matrix cannot be summarised: {e}")
+    tests = sorted({norm(c) for o in go for c, _ in o.conds if sym.pm("isinstance(ANY_s, ModelSpec)", c) is not None})
+    subj = sym.pm("isinstance(ANY_s, ModelSpec)", ast.parse(tests[0], mode="eval").body)["ANY_s"] if len(tests) == 1 else None
+    # … the spec as the caller gave it, or as ModelSpec.from_spec returned it (which keeps a structured input structured)
+    subj_ok = subj is not None and (subj == "spec" or sym.pm("ModelSpec.from_spec(spec, context=self.layered_context, **spec_overrides)", ast.parse(subj, mode="eval").body) is not None)
+    tc = sym.truth_cases(go, tests[:1], kinds=("return",)) if tests else {}
+    bare, nested = tc.get((True,), []), tc.get((False,), [])
+    ok = subj_ok and bool(bare) and sorted(v for _k, v in bare) == sorted(f"{v}._simplify()" for _k, v in nested) and all("_build_model_matrix" in v for _k, v in nested)
     ctx.check(ok, "C07.R3", "the result keeps the nested shape of the formula: only an unstructured input is unwrapped", g.where, ctx.construct(g, text="should_simplify"),
-              f"should_simplify = `{norm(ss) if ss is not None else None}` (expected isinstance(spec, ModelSpec), decided before the specs are wrapped): a structured input with only a "
+              f"unstructured input returns {[v[:90] for _k, v in bare]}, structured input returns {[v[:90] for _k, v in nested]} (expected the mapped builds, `._simplify()`-ed only when "
+              f"isinstance(spec, ModelSpec) held for the caller's own argument): a structured input with only a "
               f"root would come back as a bare matrix")
     # the builds are mapped over every part, preserving structure
     for b in builds:
